@@ -159,12 +159,12 @@ harnesses! {
     fn c11_t_iter_iupac [10] { iter_fwd!(Iupac, oracle::IUPAC, 32, 2, 6) }
     fn c11_q_iter_text_raw [10] { iter_fwd!(text::Dna, oracle::TEXT_RAW, 16, 2, 2) }
     fn c11_q_rev_iter_text_raw [10] { iter_rev!(text::Dna, oracle::TEXT_RAW, 16, 2, 2) }
-    fn c11_p_drain_fold_dna [10] { iter_drain!(Dna, oracle::DNA, 64, 2, 4, false, 0) }
-    fn c11_p_drain_count_dna [10] { iter_drain!(Dna, oracle::DNA, 64, 2, 4, false, 1) }
-    fn c11_p_drain_last_dna [10] { iter_drain!(Dna, oracle::DNA, 64, 2, 4, false, 2) }
-    fn c11_p_drain_fold_amino [10] { iter_drain!(Amino, oracle::AMINO, 21, 2, 3, false, 0) }
-    fn c11_p_drain_fold_rev_dna [10] { iter_drain!(Dna, oracle::DNA, 64, 2, 4, true, 0) }
-    fn c11_p_drain_count_rev_dna [10] { iter_drain!(Dna, oracle::DNA, 64, 2, 4, true, 1) }
+    fn c11_q_drain_fold_dna [10] { iter_drain!(Dna, oracle::DNA, 64, 2, 4, false, 0) }
+    fn c11_q_drain_count_dna [10] { iter_drain!(Dna, oracle::DNA, 64, 2, 4, false, 1) }
+    fn c11_t_drain_last_dna [10] { iter_drain!(Dna, oracle::DNA, 64, 2, 4, false, 2) }
+    fn c11_t_drain_fold_amino [10] { iter_drain!(Amino, oracle::AMINO, 21, 2, 3, false, 0) }
+    fn c11_q_drain_fold_rev_dna [10] { iter_drain!(Dna, oracle::DNA, 64, 2, 4, true, 0) }
+    fn c11_t_drain_count_rev_dna [10] { iter_drain!(Dna, oracle::DNA, 64, 2, 4, true, 1) }
     fn c11_q_rev_iter_dna [10] { iter_rev!(Dna, oracle::DNA, 64, 2, 6) }
     fn c11_q_rev_iter_amino [10] { iter_rev!(Amino, oracle::AMINO, 21, 2, 4) }
     fn c11_t_rev_iter_miupac [10] { iter_rev!(masked::Iupac, oracle::MIUPAC, 25, 2, 4) }
